@@ -1,4 +1,5 @@
 import HmcVerif.Real.BoxedKernel
+import HmcVerif.Real.FoldVolumeO
 import HmcVerif.Real.Volume
 import HmcVerif.Props.C01
 import Mathlib.MeasureTheory.Constructions.Pi
@@ -18,135 +19,132 @@ open MeasureTheory Set ENNReal
 namespace HmcVerif
 variable {ι : Type} [Fintype ι]
 
-/-- positions strictly inside the box `∏ (l i, u i)`, any momentum -/
-def openBox (l u : ι → ℝ) : Set (Vec ι × Vec ι) := {x | ∀ i, l i < x.1 i ∧ x.1 i < u i}
+/-- positions strictly inside the box (each coordinate two-sided, one-sided or unbounded), any momentum -/
+def openBox (lb ub : ι → Option ℝ) : Set (Vec ι × Vec ι) := {x | ∀ i, strictlyInBox1 (lb i) (ub i) (x.1 i)}
 
 /-- the model's sub-step on `V × V`: diagonal metric `w`, gradient `g`, box corrector -/
-noncomputable def stepBox (l u w : ι → ℝ) (g : Vec ι → Vec ι) (x : Vec ι × Vec ι) (o : Op ℝ) : Vec ι × Vec ι :=
-  toProd (stepOp (C01.diagVel w) g (C01.boxRefl (fun i => some (l i)) (fun i => some (u i))) (ofProd x) o)
+noncomputable def stepBox (lb ub : ι → Option ℝ) (w : ι → ℝ) (g : Vec ι → Vec ι) (x : Vec ι × Vec ι) (o : Op ℝ) : Vec ι × Vec ι :=
+  toProd (stepOp (C01.diagVel w) g (C01.boxRefl lb ub) (ofProd x) o)
 
 /-- the model's trajectory on `V × V` -/
-noncomputable def trajBox (l u w : ι → ℝ) (g : Vec ι → Vec ι) (ops : List (Op ℝ)) (x : Vec ι × Vec ι) : Vec ι × Vec ι :=
-  toProd (runOps (C01.diagVel w) g (C01.boxRefl (fun i => some (l i)) (fun i => some (u i))) ops (ofProd x))
+noncomputable def trajBox (lb ub : ι → Option ℝ) (w : ι → ℝ) (g : Vec ι → Vec ι) (ops : List (Op ℝ)) (x : Vec ι × Vec ι) : Vec ι × Vec ι :=
+  toProd (runOps (C01.diagVel w) g (C01.boxRefl lb ub) ops (ofProd x))
 
-theorem trajBox_cons (l u w : ι → ℝ) (g : Vec ι → Vec ι) (o : Op ℝ) (os : List (Op ℝ)) (x : Vec ι × Vec ι) :
-    trajBox l u w g (o :: os) x = trajBox l u w g os (stepBox l u w g x o) := rfl
+theorem trajBox_cons (lb ub : ι → Option ℝ) (w : ι → ℝ) (g : Vec ι → Vec ι) (o : Op ℝ) (os : List (Op ℝ)) (x : Vec ι × Vec ι) :
+    trajBox lb ub w g (o :: os) x = trajBox lb ub w g os (stepBox lb ub w g x o) := rfl
 
 noncomputable def eN : (ι → ℝ × ℝ) ≃ᵐ Vec ι × Vec ι := MeasurableEquiv.arrowProdEquivProdArrow ℝ ℝ ι
 
-noncomputable def driftPi (l u w : ι → ℝ) (c : ℝ) (a : ι → ℝ × ℝ) : ι → ℝ × ℝ :=
-  fun i => cdriftMap (l i) (u i) (c * w i) (a i)
+noncomputable def driftPi (lb ub : ι → Option ℝ) (w : ι → ℝ) (c : ℝ) (a : ι → ℝ × ℝ) : ι → ℝ × ℝ :=
+  fun i => cdriftMapO (lb i) (ub i) (c * w i) (a i)
 
-theorem stepBox_drift (l u w : ι → ℝ) (g : Vec ι → Vec ι) (c : ℝ) :
-    (fun x => stepBox l u w g x (Op.drift c)) = (eN : (ι → ℝ × ℝ) → Vec ι × Vec ι) ∘ driftPi l u w c ∘ (eN (ι := ι)).symm := by
+theorem stepBox_drift (lb ub : ι → Option ℝ) (w : ι → ℝ) (g : Vec ι → Vec ι) (c : ℝ) :
+    (fun x => stepBox lb ub w g x (Op.drift c)) = (eN : (ι → ℝ × ℝ) → Vec ι × Vec ι) ∘ driftPi lb ub w c ∘ (eN (ι := ι)).symm := by
   funext x
-  simp only [stepBox, stepOp, toProd, C01.boxRefl, Function.comp, driftPi, cdriftMap, cdrift1, eN]
+  simp only [stepBox, stepOp, toProd, C01.boxRefl, Function.comp, driftPi, cdriftMapO, cdrift1, eN]
   refine Prod.ext ?_ ?_ <;> funext i <;>
     simp [MeasurableEquiv.arrowProdEquivProdArrow, Equiv.arrowProdEquivProdArrow, ofProd, C01.diagVel, mul_assoc,
-      driftPi, cdriftMap, cdrift1]
+      driftPi, cdriftMapO, cdrift1]
 
-theorem stepBox_kick (l u w : ι → ℝ) (g : Vec ι → Vec ι) (c : ℝ) :
-    (fun x => stepBox l u w g x (Op.kick c)) = fun x : Vec ι × Vec ι => (x.1, x.2 - c • g x.1) := rfl
+theorem stepBox_kick (lb ub : ι → Option ℝ) (w : ι → ℝ) (g : Vec ι → Vec ι) (c : ℝ) :
+    (fun x => stepBox lb ub w g x (Op.kick c)) = fun x : Vec ι × Vec ι => (x.1, x.2 - c • g x.1) := rfl
 
-theorem openBox_measurable (l u : ι → ℝ) : MeasurableSet (openBox l u) := by
-  have : openBox l u = ⋂ i, {x : Vec ι × Vec ι | l i < x.1 i ∧ x.1 i < u i} := by
-    ext x; simp [openBox]
+theorem openBox_measurable (lb ub : ι → Option ℝ) : MeasurableSet (openBox lb ub) := by
+  have : openBox lb ub = ⋂ i, (fun x : Vec ι × Vec ι => (x.1 i, x.2 i)) ⁻¹' stripO (lb i) (ub i) := by
+    ext x; simp [openBox, stripO]
   rw [this]
   refine MeasurableSet.iInter fun i => ?_
-  have hm : Measurable (fun x : Vec ι × Vec ι => x.1 i) := (measurable_pi_apply i).comp measurable_fst
-  exact (measurableSet_lt measurable_const hm).inter (measurableSet_lt hm measurable_const)
+  have hm : Measurable (fun x : Vec ι × Vec ι => (x.1 i, x.2 i)) :=
+    ((measurable_pi_apply i).comp measurable_fst).prodMk ((measurable_pi_apply i).comp measurable_snd)
+  exact hm (stripO_measurable (lb i) (ub i))
 
-theorem eN_preimage_box (l u : ι → ℝ) :
-    (eN : (ι → ℝ × ℝ) → Vec ι × Vec ι) ⁻¹' openBox l u = univ.pi (fun i => openStrip (l i) (u i)) := by
+theorem eN_preimage_box (lb ub : ι → Option ℝ) :
+    (eN : (ι → ℝ × ℝ) → Vec ι × Vec ι) ⁻¹' openBox lb ub = univ.pi (fun i => stripO (lb i) (ub i)) := by
   ext a
-  simp [openBox, openStrip, eN, MeasurableEquiv.arrowProdEquivProdArrow, Equiv.arrowProdEquivProdArrow]
+  simp [openBox, stripO, eN, MeasurableEquiv.arrowProdEquivProdArrow, Equiv.arrowProdEquivProdArrow]
 
-theorem eN_mp_box (l u : ι → ℝ) :
+theorem eN_mp_box (lb ub : ι → Option ℝ) :
     MeasurePreserving (eN : (ι → ℝ × ℝ) → Vec ι × Vec ι)
-      ((volume : Measure (ι → ℝ × ℝ)).restrict (univ.pi fun i => openStrip (l i) (u i)))
-      (((volume : Measure (Vec ι)).prod volume).restrict (openBox l u)) := by
-  have := (volume_measurePreserving_arrowProdEquivProdArrow ℝ ℝ ι).restrict_preimage (openBox_measurable l u)
+      ((volume : Measure (ι → ℝ × ℝ)).restrict (univ.pi fun i => stripO (lb i) (ub i)))
+      (((volume : Measure (Vec ι)).prod volume).restrict (openBox lb ub)) := by
+  have := (volume_measurePreserving_arrowProdEquivProdArrow ℝ ℝ ι).restrict_preimage (openBox_measurable lb ub)
   rw [← eN_preimage_box]
   exact this
 
-theorem driftPi_mp (l u w : ι → ℝ) (hlu : ∀ i, l i < u i) (c : ℝ) :
-    MeasurePreserving (driftPi l u w c)
-      ((volume : Measure (ι → ℝ × ℝ)).restrict (univ.pi fun i => openStrip (l i) (u i)))
-      ((volume : Measure (ι → ℝ × ℝ)).restrict (univ.pi fun i => openStrip (l i) (u i))) := by
-  have h := measurePreserving_pi (fun i => (volume : Measure (ℝ × ℝ)).restrict (openStrip (l i) (u i)))
-    (fun i => (volume : Measure (ℝ × ℝ)).restrict (openStrip (l i) (u i)))
-    (fun i => cdrift_mp_strip (l i) (u i) (c * w i) (hlu i))
-  have e : (volume : Measure (ι → ℝ × ℝ)).restrict (univ.pi fun i => openStrip (l i) (u i))
-      = Measure.pi (fun i => (volume : Measure (ℝ × ℝ)).restrict (openStrip (l i) (u i))) :=
+theorem driftPi_mp (lb ub : ι → Option ℝ) (w : ι → ℝ) (hwf : C01.WellFormed lb ub) (c : ℝ) :
+    MeasurePreserving (driftPi lb ub w c)
+      ((volume : Measure (ι → ℝ × ℝ)).restrict (univ.pi fun i => stripO (lb i) (ub i)))
+      ((volume : Measure (ι → ℝ × ℝ)).restrict (univ.pi fun i => stripO (lb i) (ub i))) := by
+  have h := measurePreserving_pi (fun i => (volume : Measure (ℝ × ℝ)).restrict (stripO (lb i) (ub i)))
+    (fun i => (volume : Measure (ℝ × ℝ)).restrict (stripO (lb i) (ub i)))
+    (fun i => cdriftO_mp_strip (lb i) (ub i) (hwf i) (c * w i))
+  have e : (volume : Measure (ι → ℝ × ℝ)).restrict (univ.pi fun i => stripO (lb i) (ub i))
+      = Measure.pi (fun i => (volume : Measure (ℝ × ℝ)).restrict (stripO (lb i) (ub i))) :=
     Measure.restrict_pi_pi (fun _ => (volume : Measure (ℝ × ℝ))) _
   rw [e]; exact h
 
-theorem stepBox_mp (l u w : ι → ℝ) (hlu : ∀ i, l i < u i) (g : Vec ι → Vec ι) (hg : Measurable g) (o : Op ℝ) :
-    MeasurePreserving (fun x => stepBox l u w g x o)
-      (((volume : Measure (Vec ι)).prod volume).restrict (openBox l u))
-      (((volume : Measure (Vec ι)).prod volume).restrict (openBox l u)) := by
+theorem stepBox_mp (lb ub : ι → Option ℝ) (w : ι → ℝ) (hwf : C01.WellFormed lb ub) (g : Vec ι → Vec ι) (hg : Measurable g) (o : Op ℝ) :
+    MeasurePreserving (fun x => stepBox lb ub w g x o)
+      (((volume : Measure (Vec ι)).prod volume).restrict (openBox lb ub))
+      (((volume : Measure (Vec ι)).prod volume).restrict (openBox lb ub)) := by
   cases o with
   | drift c =>
     rw [stepBox_drift]
-    exact (eN_mp_box l u).comp ((driftPi_mp l u w hlu c).comp ((eN_mp_box l u).symm eN))
+    exact (eN_mp_box lb ub).comp ((driftPi_mp lb ub w hwf c).comp ((eN_mp_box lb ub).symm eN))
   | kick c =>
     rw [stepBox_kick]
-    have := (kick_measurePreserving g hg c).restrict_preimage (openBox_measurable l u)
+    have := (kick_measurePreserving g hg c).restrict_preimage (openBox_measurable lb ub)
     exact this
 
-theorem trajBox_mp (l u w : ι → ℝ) (hlu : ∀ i, l i < u i) (g : Vec ι → Vec ι) (hg : Measurable g) (ops : List (Op ℝ)) :
-    MeasurePreserving (trajBox l u w g ops)
-      (((volume : Measure (Vec ι)).prod volume).restrict (openBox l u))
-      (((volume : Measure (Vec ι)).prod volume).restrict (openBox l u)) := by
+theorem trajBox_mp (lb ub : ι → Option ℝ) (w : ι → ℝ) (hwf : C01.WellFormed lb ub) (g : Vec ι → Vec ι) (hg : Measurable g) (ops : List (Op ℝ)) :
+    MeasurePreserving (trajBox lb ub w g ops)
+      (((volume : Measure (Vec ι)).prod volume).restrict (openBox lb ub))
+      (((volume : Measure (Vec ι)).prod volume).restrict (openBox lb ub)) := by
   induction ops with
   | nil => exact MeasurePreserving.id _
   | cons o os ih =>
-    have : trajBox l u w g (o :: os) = trajBox l u w g os ∘ (fun x => stepBox l u w g x o) := by
-      funext x; exact trajBox_cons l u w g o os x
+    have : trajBox lb ub w g (o :: os) = trajBox lb ub w g os ∘ (fun x => stepBox lb ub w g x o) := by
+      funext x; exact trajBox_cons lb ub w g o os x
     rw [this]
-    exact ih.comp (stepBox_mp l u w hlu g hg o)
+    exact ih.comp (stepBox_mp lb ub w hwf g hg o)
 
 def flipN (x : Vec ι × Vec ι) : Vec ι × Vec ι := (x.1, -x.2)
 
-theorem flipN_mp_box (l u : ι → ℝ) :
+theorem flipN_mp_box (lb ub : ι → Option ℝ) :
     MeasurePreserving (flipN : Vec ι × Vec ι → Vec ι × Vec ι)
-      (((volume : Measure (Vec ι)).prod volume).restrict (openBox l u))
-      (((volume : Measure (Vec ι)).prod volume).restrict (openBox l u)) := by
+      (((volume : Measure (Vec ι)).prod volume).restrict (openBox lb ub))
+      (((volume : Measure (Vec ι)).prod volume).restrict (openBox lb ub)) := by
   have h : MeasurePreserving (flipN : Vec ι × Vec ι → Vec ι × Vec ι)
       ((volume : Measure (Vec ι)).prod volume) ((volume : Measure (Vec ι)).prod volume) :=
     (MeasurePreserving.id (volume : Measure (Vec ι))).prod (Measure.measurePreserving_neg (volume : Measure (Vec ι)))
-  exact h.restrict_preimage (openBox_measurable l u)
+  exact h.restrict_preimage (openBox_measurable lb ub)
 
 /-- almost every start is strictly inside the box at the beginning of every sub-step -/
-theorem pathGoodN_ae (l u w : ι → ℝ) (hlu : ∀ i, l i < u i) (g : Vec ι → Vec ι) (hg : Measurable g) (ops : List (Op ℝ)) :
-    ∀ᵐ x ∂(((volume : Measure (Vec ι)).prod volume).restrict (openBox l u)),
-      Split.PathGood (stepOp (C01.diagVel w) g (C01.boxRefl (fun i => some (l i)) (fun i => some (u i))))
-        (fun s _ => toProd s ∈ openBox l u) ops (ofProd x) := by
+theorem pathGoodN_ae (lb ub : ι → Option ℝ) (w : ι → ℝ) (hwf : C01.WellFormed lb ub) (g : Vec ι → Vec ι) (hg : Measurable g) (ops : List (Op ℝ)) :
+    ∀ᵐ x ∂(((volume : Measure (Vec ι)).prod volume).restrict (openBox lb ub)),
+      Split.PathGood (stepOp (C01.diagVel w) g (C01.boxRefl lb ub))
+        (fun s _ => toProd s ∈ openBox lb ub) ops (ofProd x) := by
   induction ops with
   | nil => exact ae_of_all _ fun _ => trivial
   | cons o os ih =>
-    have h1 : ∀ᵐ x ∂(((volume : Measure (Vec ι)).prod volume).restrict (openBox l u)), x ∈ openBox l u :=
-      ae_restrict_mem (openBox_measurable l u)
-    have h2 := (stepBox_mp l u w hlu g hg o).quasiMeasurePreserving.ae ih
+    have h1 : ∀ᵐ x ∂(((volume : Measure (Vec ι)).prod volume).restrict (openBox lb ub)), x ∈ openBox lb ub :=
+      ae_restrict_mem (openBox_measurable lb ub)
+    have h2 := (stepBox_mp lb ub w hwf g hg o).quasiMeasurePreserving.ae ih
     filter_upwards [h1, h2] with x a b
     exact ⟨a, b⟩
 
 /-- `Ψ = flip ∘ trajectory` is an involution almost everywhere on the box (palindromic op lists) -/
-theorem psiN_involution_ae (l u w : ι → ℝ) (hlu : ∀ i, l i < u i) (g : Vec ι → Vec ι) (hg : Measurable g)
+theorem psiN_involution_ae (lb ub : ι → Option ℝ) (w : ι → ℝ) (hwf : C01.WellFormed lb ub) (g : Vec ι → Vec ι) (hg : Measurable g)
     (ops : List (Op ℝ)) (hp : ops.reverse = ops) :
-    ∀ᵐ x ∂(((volume : Measure (Vec ι)).prod volume).restrict (openBox l u)),
-      flipN (trajBox l u w g ops (flipN (trajBox l u w g ops x))) = x := by
-  filter_upwards [pathGoodN_ae l u w hlu g hg ops] with x hx
-  have hwf : C01.WellFormed (fun i => some (l i)) (fun i => some (u i)) := by
-    intro i a b ha hb; cases ha; cases hb; exact hlu i
+    ∀ᵐ x ∂(((volume : Measure (Vec ι)).prod volume).restrict (openBox lb ub)),
+      flipN (trajBox lb ub w g ops (flipN (trajBox lb ub w g ops x))) = x := by
+  filter_upwards [pathGoodN_ae lb ub w hwf g hg ops] with x hx
   have := Split.palindrome_reversible_on
-    (stepOp (C01.diagVel w) g (C01.boxRefl (fun i => some (l i)) (fun i => some (u i)))) C01.flip
-    (fun s _ => toProd s ∈ openBox l u)
+    (stepOp (C01.diagVel w) g (C01.boxRefl lb ub)) C01.flip
+    (fun s _ => toProd s ∈ openBox lb ub)
     (fun o s hs => C01.boxed_step_reversible _ _ hwf w g o s (by
       cases o with
-      | drift c =>
-        intro i
-        exact ⟨fun a ha => by cases ha; exact (hs i).1, fun b hb => by cases hb; exact (hs i).2⟩
+      | drift c => exact hs
       | kick c => trivial))
     ops hp (ofProd x) hx
   have e : ∀ y : Vec ι × Vec ι, ofProd (flipN y) = C01.flip (ofProd y) := fun y => rfl
@@ -155,16 +153,16 @@ theorem psiN_involution_ae (l u w : ι → ℝ) (hlu : ∀ i, l i < u i) (g : Ve
   rw [h2, this]
   simp [flipN, toProd, ofProd, C01.flip]
 
-/-- **C01, volume preservation with reflections, any dimension, Unit / Diagonal metric, two-sided box**:
+/-- **C01, volume preservation with reflections, any dimension, Unit / Diagonal metric, any box**:
     the proposal map of every integrator (every `n`, `h`, coefficient set, measurable gradient) carries
     Lebesgue measure on the open box to itself -/
-theorem C01.propose_volume_preserving_boxed_diag (l u w : ι → ℝ) (hlu : ∀ i, l i < u i) (g : Vec ι → Vec ι)
+theorem C01.propose_volume_preserving_boxed_diag (lb ub : ι → Option ℝ) (w : ι → ℝ) (hwf : C01.WellFormed lb ub) (g : Vec ι → Vec ι)
     (hg : Measurable g) (c : Coeffs ℝ) (i : Integrator) (h : ℝ) (n : Nat) :
     MeasurePreserving
       (fun x : Vec ι × Vec ι => toProd (runOps (C01.diagVel w) g
-        (C01.boxRefl (fun i => some (l i)) (fun i => some (u i))) (schedule c i h n) (ofProd x)))
-      (((volume : Measure (Vec ι)).prod volume).restrict (openBox l u))
-      (((volume : Measure (Vec ι)).prod volume).restrict (openBox l u)) :=
-  trajBox_mp l u w hlu g hg (schedule c i h n)
+        (C01.boxRefl lb ub) (schedule c i h n) (ofProd x)))
+      (((volume : Measure (Vec ι)).prod volume).restrict (openBox lb ub))
+      (((volume : Measure (Vec ι)).prod volume).restrict (openBox lb ub)) :=
+  trajBox_mp lb ub w hwf g hg (schedule c i h n)
 
 end HmcVerif
